@@ -99,7 +99,7 @@ def run_mc(ctx, tag, mode, theme, maxops, maxnodes, ns_on, defects, thms):
 CONTAINERS = ["div", "p", "table", "tbody", "tr", "td", "select", "caption", "colgroup", "title", "textarea", "script", "svg-not",
               "html", "head", "body", "frameset", "template-not", "style", "plaintext", "th", "thead", "tfoot", "xmp", "noscript"]
 CONTAINERS = [c for c in CONTAINERS if not c.endswith("-not")]
-WITNESSES = [("<p href=a xlink:href=b>", None), ("<!DOCTYPE a:b><p x:y=1 y=2>", None), ("<!DOCTYPE svg:svg PUBLIC \"p\" \"s\">x", None), ("<b><div><table><i>x</table></b>", None), ("<table><b>", "p"),
+WITNESSES = [("<p href=a xlink:href=b>", None), ("<!DOCTYPE a:b><p x:y=1 y=2>", None), ("<!DOCTYPE svg:svg PUBLIC \"p\" \"s\">x", None), ("x<appletxlink:href>y<a:b c:d=1>", None), ("<b><div><table><i>x</table></b>", None), ("<table><b>", "p"),
              ("<b><div><p></b></b>", None), ("<a>1<table><a>2<td>3</table>4", None), ("<table><tr><a><div></a>", None),
              ("<tr><a><div></a>", "tbody"), ("<body a=1><body a=2 b=3>", None), ("<html x=1><html x=2 y=3>", None),
              ("<b><i><u><div>x</b>y</i>z", None), ("<pre>\n\nx</pre><textarea>\n</textarea>", None), ("a<table>b<tr>c<td>d</table>e", None),
@@ -365,7 +365,7 @@ def _spec_tree_row(job):
 def run(ctx):
     listed = [x for x in DEFECTS if x in ctx.open_keys]
     q = ctx.quick
-    P = {"parser/structure": (5, 8) if q else (6, 8), "parser/attrs": (4, 7) if q else (5, 7), "free": (4, 5) if q else (5, 4)}
+    P = {"parser/structure": (5, 8) if q else (6, 8), "parser/attrs": (4, 7) if q else (5, 6), "free": (4, 5) if q else (5, 4)}
     ctx.constants = {"MC_TreeStore (MaxOps, MaxNodes)": P,
                      "parser-mode alphabet": "elements b/div/table (+svg and attribute sets in theme attrs), text 'x', comments in current node / "
                                              "document, pop, body removal, adoption agency steps 9-15 with every AFE mask, reconstruction, "
@@ -404,7 +404,7 @@ def run(ctx):
                                              % r4.violated)
     ctx.exhaustive = True
     # ---- 3. + 4. code -> spec -------------------------------------------------------------------------------
-    docs = gen_inputs(ctx, 1500 if q else 20000, [("formatting", 2), ("table", 2)] if q else [("formatting", 3), ("table", 3), ("select", 2), ("foreign", 2)])
+    docs = gen_inputs(ctx, 1500 if q else 15000, [("formatting", 2), ("table", 2)] if q else [("formatting", 3), ("table", 3), ("select", 2), ("foreign", 2)])
     skipped = [x for x in docs if clark_ambiguous(x[0])]
     docs = [x for x in docs if not clark_ambiguous(x[0])]
     ctx.notes["inputs_skipped_clark_notation_ambiguity"] = len(skipped)
